@@ -1,5 +1,6 @@
 import SigModel.Driver.Loop
 import SigModel.Spec.Transient
+import SigModel.Spec.TransientRooms
 
 /-! Driver for C14 — transient room data (`Model/Transient.lean`, `Spec/Transient.lean`).
 
@@ -137,9 +138,110 @@ where
     if cs.head? ≠ some '{' ∨ cs.getLast? ≠ some '}' then none else
     some (splitTop (String.ofList ((cs.drop 1).dropLast)) ',')
 
+/-! ### room level (`Model/TransientRooms.lean`, `Spec/TransientRooms.lean`; harness `zz_verif_c14_rooms_test.go`) -/
+
+def wordOk (w : String) : Bool := !w.isEmpty && w.toList.all (fun c => c.isAlphanum)
+
+/-- value token of the JSON string `"w"` a client sends (`json.RawMessage`) -/
+def clientVal (w : String) : Val := "j:%22" ++ w ++ "%22"
+
+/-- value token of the Go string `w` a room request on the bus carries -/
+def backendVal (w : String) : Val := "s:" ++ w
+
+def parseSess (t : String) : Option Lid := do
+  let n ← toNat? t
+  if n < 4 then some n else none
+
+def parseRoom (t : String) : Option Nat := do
+  let n ← toNat? t
+  if 1 ≤ n ∧ n ≤ 2 then some n else none
+
+def parseROp : List String → Option ROp
+  | ["rjoin", s, r] => do some (.join (← parseSess s) (← parseRoom r))
+  | ["rleave", s] => do some (.leave (← parseSess s))
+  | ["rclose", s] => do some (.close (← parseSess s))
+  | ["rset", s, k, w, ttl] => do
+    let s ← parseSess s
+    let t ← toInt? ttl
+    if w == nilTok then some (.set s k none t)
+    else if wordOk w then some (.set s k (some (clientVal w)) t) else none
+  | ["rrm", s, k] => do some (.rm (← parseSess s) k)
+  | ["rbset", r, k, w, ttl] => do
+    let r ← parseRoom r
+    let t ← toInt? ttl
+    if wordOk w then some (.bset r k (backendVal w) t) else none
+  | ["rbrm", r, k] => do some (.brm (← parseRoom r) k)
+  | ["rdel", r] => do some (.del (← parseRoom r))
+  | ["radv", dt] => do
+    let d ← toInt? dt
+    if 0 ≤ d ∧ d ≤ 600000000000 then some (.adv d.toNat) else none
+  | ["rget"] => some .get
+  | _ => none
+
+def isRoomOp (op : List String) : Bool :=
+  match op with
+  | t :: _ => ["rjoin", "rleave", "rclose", "rset", "rrm", "rbset", "rbrm", "rdel", "radv", "rget"].contains t
+  | [] => false
+
+def showIds (ls : List Lid) : String :=
+  if ls.isEmpty then "-" else ",".intercalate ((sortNats ls).map toString)
+
+/-- sorted with repetitions (the `Z=` token lists every registration) -/
+def insertNatDup (n : Nat) : List Nat → List Nat
+  | [] => [n]
+  | m :: r => if n ≤ m then n :: m :: r else m :: insertNatDup n r
+
+def showIn (w : World) : String :=
+  "in=" ++ String.join (sessions.map (fun s =>
+    if s ∈ w.closed then "x" else
+    match w.roomOf s with
+    | none => "-"
+    | some i =>
+      match w.obj i with
+      | some o => (if o.live then "" else "!") ++ toString o.rid
+      | none => "?"))
+
+def showWRes (r : WRes) : String :=
+  let w := r.w
+  let rooms := roomIds.flatMap (fun rid =>
+    match w.liveRoom rid with
+    | none => []
+    | some o =>
+      [s!"D{rid}=" ++ showMap o.td.data,
+       s!"T{rid}=" ++ "{" ++ ",".intercalate ((canonMap o.td.tmap).map (·.1)) ++ "}",
+       s!"A{rid}=" ++ showIds o.td.listeners])
+  let z := ((w.objs.filter (fun o => !o.live)).flatMap (fun o => o.td.listeners)).foldr insertNatDup []
+  joinToks ([r.oc] ++ showOut r.out ++ [showIn w] ++ rooms ++
+    ["Z=" ++ (if z.isEmpty then "-" else ",".intercalate (z.map toString))])
+
+def parseRObs (toks : List String) : Option RObs :=
+  match toks with
+  | [] => none
+  | oc :: rest =>
+    let rec go (ts : List String) (o : RObs) : Option RObs :=
+      match ts with
+      | [] => some o
+      | t :: r =>
+        if hasPrefix "L" t then
+          match parseListenerTok t with
+          | some ms => go r { o with msgs := o.msgs ++ ms }
+          | none => none
+        else if hasPrefix "D" t then
+          match (dropS 1 t).splitOn "=" with
+          | rid :: restEq =>
+            match toNat? rid, parseMap ("=".intercalate restEq) with
+            | some n, some d => go r { o with datas := o.datas ++ [(n, d)] }
+            | _, _ => none
+          | [] => none
+        else if hasPrefix "in=" t || hasPrefix "T" t || hasPrefix "A" t || hasPrefix "Z=" t then go r o
+        else none
+    go rest { oc := oc, msgs := [], datas := [] }
+
 structure St where
   model : State := {}
   judge : Judge := {}
+  world : World := {}
+  rjudge : RJudge := {}
 
 /-- `late k v ttl <a…>`: the four model steps of the harness choreography. -/
 def lateSteps (st : State) (k : Key) (v : Val) (ttl : Int) (a : Op) : Res :=
@@ -170,7 +272,18 @@ def judgeConc (impl : List String) : String :=
     | _, _ => "violated:unparsable-implementation-output"
   | _ => "violated:unparsable-implementation-output"
 
+def stepRoom (st : St) (op impl : List String) : St × String × String :=
+  match parseROp op with
+  | none => (st, "bad-op", "na")
+  | some o =>
+    let r := stepR st.world o
+    let (j', v) := match parseRObs impl with
+      | some obs => st.rjudge.observe o obs
+      | none => (st.rjudge, if impl.isEmpty then "na" else "violated:unparsable-implementation-output")
+    ({ st with world := r.w, rjudge := j' }, showWRes r, v)
+
 def step (st : St) (op impl : List String) : St × String × String :=
+  if isRoomOp op then stepRoom st op impl else
   match op with
   | ["conc", _, _] =>
     if impl.isEmpty then (st, "conc", "na") else (st, joinToks impl, judgeConc impl)
@@ -185,7 +298,7 @@ def step (st : St) (op impl : List String) : St × String × String :=
         let (j', verdict) := match parseObs impl with
           | some obs => st.judge.observeLate k v t a obs
           | none => (st.judge, if impl.isEmpty then "na" else "violated:unparsable-implementation-output")
-        ({ model := r.st, judge := j' }, showRes r, verdict)
+        ({ st with model := r.st, judge := j' }, showRes r, verdict)
     | _, _ => (st, "bad-op", "na")
   | _ =>
   match parseOp op with
@@ -195,6 +308,6 @@ def step (st : St) (op impl : List String) : St × String × String :=
     let (j', v) := match parseObs impl with
       | some obs => st.judge.observe o obs
       | none => (st.judge, if impl.isEmpty then "na" else "violated:unparsable-implementation-output")
-    ({ model := r.st, judge := j' }, showRes r, v)
+    ({ st with model := r.st, judge := j' }, showRes r, v)
 
 end SigModel.Driver.C14
